@@ -1,9 +1,11 @@
 (** C08 — Crash recovery: committed-but-unconsumed events are recoverable at any instant.
-    PARTIAL by theorem: the queue block and the metadata block, each for every reachable state of its own protocol;
-    that the blocks of one session combine into a printable log (sources and a clock sync before the events) is checked on
-    real memory images of the real process by the real brecovery (tools/p_C08.py). *)
+    By theorem: the queue block and the metadata block, each for every reachable state of its own protocol (incl. the instants inside a
+    commit and inside a metadata write), and - for every reachable state of the session model BETWEEN operations - that the blocks of the
+    session combine into a printable log (clock syncs and sources first, and the sources cover every unreleased event).
+    PARTIAL: the combination at instants INSIDE a session operation is checked on real memory images of the real process by the
+    real brecovery (tools/p_C08.py). *)
 From Coq Require Import List ZArith NArith Bool Lia.
-From BL Require Import Base.Bytes Queue.QueueModel Queue.QueueInv Recovery.Recover Recovery.RecoverProofs Recovery.ImageProofs Recovery.Vos Recovery.SortProofs Recovery.SessionImage Gen.SrcFacts.
+From BL Require Import Base.Bytes Queue.QueueModel Queue.QueueInv Recovery.Recover Recovery.RecoverProofs Recovery.ImageProofs Recovery.Vos Recovery.SortProofs Recovery.SessionImage Recovery.SessionCover Session.SessionModel Reader.Entry Reader.ReaderLemmas Gen.SrcFacts.
 Import ListNotations.
 Local Open Scope Z_scope.
 
@@ -69,6 +71,36 @@ Theorem C08_metadata_before_data : forall image pre d mid m post,
   rb_session d = rb_session m -> rb_is_data d = true -> rb_is_data m = false -> False.
 Proof. exact metadata_before_data. Qed.
 Print Assumptions C08_metadata_before_data.
+
+(** the session: for EVERY history of writers created and destroyed, log statements, sources, clock syncs, raw events carrying ids the
+    session handed out, queue replacements and consumes with lock-free writer actions inside them (any reads-from choices), the memory of
+    the resulting state - its clock-sync buffer, its sources buffer and every channel, with any other memory around them that contains no
+    magic number - is read back by the tool as: clock syncs, sources, then the committed-but-unreleased events of every channel in order;
+    at least one clock sync is there, and every recovered event carries a source id whose source entry is among the recovered sources. *)
+Theorem C08_session_state_recovered : forall fence c ops sp ptr l,
+  small (cs_payload c) -> run_cov fence (sess_init c) ops ->
+  let s := fst (srun fence (sess_init c) ops) in
+  (sp < 2 ^ 64)%N -> (forall ch, (ptr ch < 2 ^ 64)%N) -> Forall (fun ch => cap (ch_q ch) < 2 ^ 64) (channels s) ->
+  (lenN (cs_buf s) < 2 ^ 64)%N -> (lenN (src_buf s) < 2 ^ 64)%N ->
+  weave l (session_blocks sp ptr s) -> junk_ok l ->
+  recover (image_of l) = cs_buf s ++ src_buf s ++ concat (map (fun ch => unreleased (ch_q ch)) (channels s))
+  /\ (exists css, css <> [] /\ cs_buf s = stream_of (map cs_payload css))
+  /\ (exists srcs, src_buf s = stream_of (map (fun p => src_payload (fst p) (snd p)) srcs)
+       /\ forall ch, In ch (channels s) -> exists evs, unreleased (ch_q ch) = concat evs
+            /\ Forall (fun e => exists id rest, e = frame (le_enc 8 id ++ rest) /\ In id (map fst srcs)) evs).
+Proof.
+  generalize (eq_refl : SrcFacts.macro_registers_then_stores_sid = true). generalize SrcFacts.macro_registers_then_stores_sid. intros b1 ->.
+  exact session_state_recovered.
+Qed.
+Print Assumptions C08_session_state_recovered.
+(** histories made of log statements (no raw addEvent) satisfy the premise whatever the state *)
+Theorem C08_log_statement_histories_are_covered : forall fence ops, Forall op_static ops -> forall s, run_cov fence s ops.
+Proof. exact run_static. Qed.
+Example C08_session_nonvacuous : Forall op_static ex_ops /\
+  let s := fst (srun true (sess_init ex_cs) ex_ops) in
+  map (fun ch => unreleased (ch_q ch)) (channels s) =
+    [[]; entry_event 1 102 [3; 0; 0; 0]; entry_event 2 103 [4; 0; 0; 0] ++ entry_event 1 104 [5; 0; 0; 0]]%N /\ next_sid s = 3%N.
+Proof. split; [exact ex_static|exact ex_unreleased]. Qed.
 
 (** non-vacuity: junk, a clock-sync block, junk with a stray first-magic byte, a wrapped queue, a sources block *)
 Example C08_image_nonvacuous :
